@@ -40,6 +40,21 @@ def idft3 (d : Dims) (twx twy twz : Nat → C) (ix iy iz : C) (y : Idx → C) : 
   alongX (idft1 d.nx twx ix) (alongY (idft1 d.ny twy iy) (alongZ (idft1 d.nz twz iz) y))
 end dft
 
+/-! ### circular shifts and frequency negation as index maps (what `Lemmas/C12_DftShift` speaks about) -/
+
+/-- `np.roll(x, -s, axis)` read as a re-indexing: voxel `i` of the rolled array is voxel `(i + s) mod n` of the
+original; indices off the axis range are left alone (as the 1-D transforms leave them alone) -/
+def roll1 (n : Nat) (s : Int) (i : Int) : Int := if 0 ≤ i ∧ i < (n : Int) then (i + s) % (n : Int) else i
+
+/-- `np.roll(x, (-s₀,-s₁,-s₂), axis=(0,1,2))` as a re-indexing of the volume -/
+def rollIdx (d : Dims) (s : Idx) (i : Idx) : Idx := (roll1 d.nx s.1 i.1, roll1 d.ny s.2.1 i.2.1, roll1 d.nz s.2.2 i.2.2)
+
+/-- DFT bin of the opposite frequency on the axis range (`negIdx`), identity off it -/
+def negBox1 (n : Nat) (k : Int) : Int := if 0 ≤ k ∧ k < (n : Int) then negIdx n k else k
+
+/-- bin `(-j,-k,-l) mod (nx,ny,nz)` -/
+def negBoxIdx (d : Dims) (k : Idx) : Idx := (negBox1 d.nx k.1, negBox1 d.ny k.2.1, negBox1 d.nz k.2.2)
+
 /-! ### complex numbers over the model's number type -/
 
 structure Cx (α : Type) where
@@ -61,6 +76,10 @@ end Cx
 /-! ### the executed pipeline: `np.real(ifftn(fftn(x) * gain))` with the stages materialised -/
 
 def volOf (x : Idx → C) : Vol C := fun a b c => x (a, b, c)
+
+/-- `np.roll(x, (-s₀,-s₁,-s₂), axis=(0,1,2))` of a materialised array (`rollIdx` tabulated on the box) -/
+def rollGrid [OfNat C 0] (d : Dims) (s : Idx) (x : Grid C) : Grid C :=
+  tabulate d (volOf (fun i => atIdx x.get (rollIdx d s i)))
 
 /-- one materialised stage: apply `T` to what the array holds and tabulate the result on the box -/
 def stage [OfNat C 0] (d : Dims) (T : (Idx → C) → (Idx → C)) (g : Grid C) : Grid C :=
